@@ -52,6 +52,7 @@ func Execute(t *testing.T, tr *Trace, gen *Gen, prop string, bubble bool) *RunRe
 		w.Gen = gen
 		w.InBubble = bubble
 		w.StopOnViolation = true
+		w.PropOverride = prop
 		w.KnownClasses = map[string]bool{}
 		for _, c := range strings.Split(os.Getenv("SIM_KNOWN"), ",") {
 			if c != "" {
